@@ -338,3 +338,23 @@ Qed.
 (** lsb returns the bit itself: b0 = TRUE for even numbers, b1 = FALSE for odd ones *)
 Theorem binary_lsb_num n : red (lc_num_binary_lsb @ binary n) (bool_t (Nat.even n)).
 Proof. rewrite binary_bnum. eapply star_trans; [apply binary_lsb|]. rewrite lsbb_bits. apply star_refl. Qed.
+
+From Coq Require Import PArith Pnat.
+(** ** the [N]-indexed encoder used for large numbers is the same encoding *)
+Lemma bits_of_pos_spec p : canonb (bits_of_pos p) = true /\ bval (bits_of_pos p) = Pos.to_nat p /\ bits_of_pos p <> [].
+Proof.
+  induction p as [q [C [V NE]]|q [C [V NE]]|]; cbn [bits_of_pos canonb bval].
+  - repeat split; [destruct (bits_of_pos q); auto|rewrite V, Pos2Nat.inj_xI; lia|discriminate].
+  - repeat split; [destruct (bits_of_pos q); [congruence|auto]|rewrite V, Pos2Nat.inj_xO; lia|discriminate].
+  - repeat split; try reflexivity; discriminate.
+Qed.
+Theorem binary_N_spec n : binary_N n = binary (N.to_nat n).
+Proof.
+  unfold binary_N. fold (bnum (bits_of_N n)). destruct n as [|p]; [reflexivity|].
+  destruct (bits_of_pos_spec p) as (C & V & _). cbn [bits_of_N N.to_nat]. rewrite bnum_canon by auto. rewrite V. reflexivity.
+Qed.
+Theorem dec_binary_N_ok n : dec_binary_N (binary_N n) = Some n.
+Proof.
+  unfold binary_N, dec_binary_N. destruct n as [|p]; [reflexivity|]. cbn [bits_of_N].
+  induction p as [q IH|q IH|]; cbn [bits_of_pos bits_term dec_bits_N]; try rewrite IH; reflexivity.
+Qed.
